@@ -30,7 +30,7 @@ func init() {
 		Quick: 100000, Thorough: 3000000,
 		Run:        runC16,
 		Rule:       "one run = one generated (type, value); evaluations = individual MarshalTo calls, one per destination length L in 0..Size(v)+16 and per buffer shape (cap==len, cap extends into the trailing canary): cut points are exhaustive per value, values are sampled. non-trivial = the value encodes to at least 2 bytes (so that at least one cut lands inside its output); distinct = distinct hash of (type, Marshal(v) bytes)",
-		FaultKinds: []string{"large-value", "empty-strings-sliced-from-non-empty-ones", "destination-shorter-than-size", "destination-exact", "destination-longer", "cap-extends-past-len", "value-after-other-values-of-the-same-type", "cut-inside-varint-or-tag", "cut-inside-bytes-or-string", "cut-inside-embedded-message", "cut-inside-repeated", "cut-inside-map-entry", "cut-inside-custom-message", "cut-inside-fixed"},
+		FaultKinds: []string{"two-fields-share-one-slice", "element-changed-in-place-between-two-encodes", "values-in-turn-at-one-address", "large-value", "empty-strings-sliced-from-non-empty-ones", "destination-shorter-than-size", "destination-exact", "destination-longer", "cap-extends-past-len", "value-after-other-values-of-the-same-type", "cut-inside-varint-or-tag", "cut-inside-bytes-or-string", "cut-inside-embedded-message", "cut-inside-repeated", "cut-inside-map-entry", "cut-inside-custom-message", "cut-inside-fixed"},
 		ProbeNames: []string{"values", "values-with-multi-entry-maps(compared canonically)", "values-map-free(compared bytewise)", "size==0", "size>=128(two-byte length prefixes)", "size>=1KiB", "custom-or-Message-types", "unencodable-skipped", "well-formedness-checked(reference parser)", "large-value(destination lengths sampled)"},
 		Real:       []string{"proto.MarshalTo, proto.Size, proto.Marshal, proto.Unmarshal compiled from /repo's working tree with sync and sync/atomic redirected to the shim (deterministic simulated sync.Pool, pristine library state before every run)"},
 		Model:      []string{"destination buffer (simio.GuardedBuf: prefill pattern, canaries on both sides)", "well-behaved user Message / gogo-style custom message implementations"},
@@ -122,6 +122,13 @@ type c16Scenario struct {
 	SlicedEmpties bool `json:"sliced_empties,omitempty"`
 	// Large: the value was made large on purpose; destination lengths are sampled.
 	Large bool `json:"large,omitempty"`
+	// SameMemory: the values of the run are stored in turn in one variable.
+	SameMemory bool `json:"same_memory,omitempty"`
+	// AliasSlices: the first two fields of one slice type share one slice.
+	AliasSlices bool `json:"alias_slices,omitempty"`
+	// MutateInPlace: each value is checked, then the first element of its first
+	// non-empty repeated scalar / string field is changed in place, then checked again.
+	MutateInPlace bool `json:"mutate_in_place,omitempty"`
 }
 
 // c16Large is set for the run in progress (one run at a time per process).
@@ -189,6 +196,76 @@ func c16Inflate(v reflect.Value, n, depth int) bool {
 			if v.Type().Field(i).PkgPath == "" && c16Inflate(v.Field(i), n, depth+1) {
 				return true
 			}
+		}
+	}
+	return false
+}
+
+// c16AliasSlices makes the second field of a struct that has the slice type of an
+// earlier non-empty slice field share that field's slice.
+func c16AliasSlices(v reflect.Value) bool {
+	for v.Kind() == reflect.Ptr {
+		if v.IsNil() {
+			return false
+		}
+		v = v.Elem()
+	}
+	if v.Kind() != reflect.Struct {
+		return false
+	}
+	first := map[reflect.Type]reflect.Value{}
+	for i := 0; i < v.NumField(); i++ {
+		f := v.Field(i)
+		if v.Type().Field(i).PkgPath != "" || f.Kind() != reflect.Slice || f.Type().Elem().Kind() == reflect.Uint8 {
+			continue
+		}
+		if g, ok := first[f.Type()]; ok {
+			f.Set(g)
+			return true
+		}
+		if f.Len() > 0 {
+			first[f.Type()] = f
+		}
+	}
+	return false
+}
+
+// c16MutateInPlace changes, in place, the first element of the first non-empty
+// repeated field of integers or strings to a value with another encoded length.
+func c16MutateInPlace(v reflect.Value) bool {
+	for v.Kind() == reflect.Ptr {
+		if v.IsNil() {
+			return false
+		}
+		v = v.Elem()
+	}
+	if v.Kind() != reflect.Struct {
+		return false
+	}
+	for i := 0; i < v.NumField(); i++ {
+		f := v.Field(i)
+		if v.Type().Field(i).PkgPath != "" || f.Kind() != reflect.Slice || f.Len() == 0 {
+			continue
+		}
+		e := f.Index(0)
+		switch e.Kind() {
+		case reflect.Int, reflect.Int32, reflect.Int64:
+			if e.Int() >= 0 && e.Int() < 128 {
+				e.SetInt(1 << 30)
+			} else {
+				e.SetInt(1)
+			}
+			return true
+		case reflect.Uint, reflect.Uint32, reflect.Uint64:
+			if e.Uint() < 128 {
+				e.SetUint(1 << 30)
+			} else {
+				e.SetUint(1)
+			}
+			return true
+		case reflect.String:
+			e.SetString(e.String() + "-changed-in-place-and-longer-than-it-was")
+			return true
 		}
 	}
 	return false
@@ -305,12 +382,57 @@ func runC16(r *core.Run) {
 			slicedEmpties(v, 0)
 		}
 	}
+	if r.Scenario == nil {
+		sc.SameMemory = len(vals) > 1 && t.Chance(1, 3)
+	}
+	var slot reflect.Value
+	if sc.SameMemory {
+		// the caller's one variable: the same address holds each value in turn
+		slot = reflect.New(ty.rt)
+		r.Fault("values-in-turn-at-one-address")
+	}
+	if r.Scenario == nil {
+		sc.AliasSlices = t.Chance(1, 4)
+		sc.MutateInPlace = t.Chance(1, 3)
+	}
+	if sc.AliasSlices {
+		for _, v := range vals {
+			if c16AliasSlices(v) {
+				r.Fault("two-fields-share-one-slice")
+			}
+		}
+	}
+	if sc.MutateInPlace {
+		// after a value was measured and encoded the caller changes an element of one
+		// of its repeated fields in place and encodes it again
+		var more []reflect.Value
+		for _, v := range vals {
+			more = append(more, v)
+			more = append(more, reflect.Value{}) // marker: mutate the previous value in place, check again
+		}
+		vals = more
+	}
 	var encs [][]byte
+	var prev reflect.Value
 	for i, v := range vals {
+		if !v.IsValid() {
+			if !prev.IsValid() || !c16MutateInPlace(prev) {
+				continue
+			}
+			r.Fault("element-changed-in-place-between-two-encodes")
+			v = prev
+		} else {
+			prev = v
+		}
+		if sc.SameMemory && v != slot {
+			slot.Elem().Set(v.Elem())
+			v = slot
+			prev = slot
+		}
 		want, ok := c16CheckValue(r, ty, v, i == 0)
 		if r.V != nil {
 			if r.Scenario == nil {
-				out := &c16Scenario{Before: encs, Value: want, SlicedEmpties: sc.SlicedEmpties, Large: sc.Large}
+				out := &c16Scenario{Before: encs, Value: want, SlicedEmpties: sc.SlicedEmpties, Large: sc.Large, SameMemory: sc.SameMemory, AliasSlices: sc.AliasSlices, MutateInPlace: sc.MutateInPlace}
 				var shape int
 				var sp, nm bool
 				if n, _ := fmt.Sscanf(ty.name, "proto-shape-%d/%t/%t", &shape, &sp, &nm); n == 3 {
